@@ -49,3 +49,5 @@ def run(project, rep):
     rep.run(Z.z_r6_carrier_date, project, rep)
     rep.run(Z.z_r7_aware_values_kept, project, rep)
     rep.run(L.l_r3_datetime, project, rep)
+    from .. import rules_values as _V15
+    rep.run(_V15.v_r15_no_html5_entity_decoder, project, rep)
